@@ -93,6 +93,11 @@ CHECKS = {
    text="Each fit of the real estimators (offsets, column scales 1e-9..1e9, constant/collinear columns, 1-3 targets, f32/f64, five layouts) is judged against the optimality conditions of the documented objective: no coordinate or intercept move may lower the objective by more than reported_gap/n plus a noise floor, coefficients under the l1 threshold are exactly zero, the gap is non-negative. OLS and single-task lattices are enumerated completely; the T=2 multi-task lattice is sampled.",
    note="Trusts the harness objective arithmetic (floor 4096*eps*S, >= 2700x above clean residuals). Runs that exhaust the iteration budget without a provably ample budget, and ridge/penalty-0 runs where linfa's gap is vacuous, are judged against the configured tolerance or inconclusive.",
    ref="DESIGN.md §5 C11"),
+ "C12": dict(
+   technique="runtime monitor: analytic f64 gradient of the documented objectives (binary log-loss, softmax cross-entropy, 1/2(Tweedie deviance + alpha|w|^2) through the link) evaluated at the returned parameters; metamorphic label/order/layout sets; probability and decision oracles at |logit| up to 1e30; exhaustive small labellings; fits isolated in worker processes with a watchdog",
+   text="Every returned logistic / multinomial / Tweedie model of the real code is judged by stationarity of the harness's own gradient (self-checked against central differences) up to the configured gradient tolerance plus a noise floor, by the reported class set, by probabilities in [0,1] / rows summing to one at extreme inputs, and by the predicted class being the one the probabilities and threshold imply; out-of-support targets must be rejected with the range error. All 62 labellings of 6 points and all 3-class labellings of 5 points are enumerated.",
+   note="Trusts the harness gradients (max relative error vs central differences 1.9e-8). Separable alpha=0 data is excluded by the harness's own Newton iteration. A fit that does not answer within the watchdog, or Err fits (25% of GLM cases overflow on unscaled features), are inconclusive. The f32 start-point-returned-unchanged case of argmin's line search is a recorded known finding.",
+   ref="DESIGN.md §5 C12"),
 }
 
 NOT_YET = {}
